@@ -18,6 +18,14 @@ def T(quick, thorough, floor=200, **kw):
 
 
 PROPS = {
+    "C06": T(4000, 100000,
+             rule="random multigraph (21 families, n<=7, 10%: n<=12) stored in one of the 9 encodings (Graph via shuffled history, "
+                  "StableGraph with vacancies at index 0 / inside / trailing, MatrixGraph with removed ids, GraphMap with sparse labels, "
+                  "Csr, adj::List); the visit-trait checker compares node_identifiers/node_references/node_count/node_bound/to_index/"
+                  "from_index, edge_references/edge_count, neighbors/edges (+_directed), is_adjacent for all ordered pairs and "
+                  "EdgeIndexable against the edge list the harness expects; the same checker runs on Reversed, UndirectedAdaptor, "
+                  "NodeFiltered (closure / FixedBitSet / HashSet, 4 predicate kinds), EdgeFiltered, Frozen and 7 depth-2 stackings with "
+                  "the expected view computed by the harness; non-trivial = >=3 nodes and >=2 edges; distinct = edge-list hash"),
     "C14": T(2500, 60000, sites=["acyclic_reorder", "acyclic_no_reorder"],
              rule="operation histories on Acyclic<DiGraph<u32,u32,Ix>> and Acyclic<StableDiGraph<..>> (4 index widths; 20-250 ops: add_node, "
                   "try_add_edge / try_update_edge / Build::add_edge / Build::update_edge between random live pairs (self-loops, "
